@@ -65,3 +65,19 @@ PROPS['C17'] = dict(
        'each slot-state change moves the matching counter, tombstone reuse decrements exactly under the tombstone comparison, clearing resets both and visits HASH_SIZE slots, every removal is followed by the release on all paths; every index into glyphs[] is masked or loop-bounded; HASH_SIZE is a power of two with room for the high-water mark; insertion copies the image and requires a frozen cache. '
        'Holds for every history because it is a property of each mutator\'s paths.',
   note='Trusted: clang-14 IR = built program. F3 (capacity test ignored tombstones and allowed a full table) was repaired in /repo. Not decided: LRU order, glyph drawing equivalence.')
+PROPS['C05'] = dict(
+  technique='static analysis: control dependence of the band sweep\'s reset on both aliasing comparisons, interprocedural fails-broken summaries with feasibility pruning of status variables (T-MPT), field-wise copy coverage (T-COV), sentinel/guard inventory',
+  text='For both instantiations (16- and 32-bit) decides: the band sweep discards the result\'s rectangles only under pointer comparisons with both operands, keeps them until the end and frees them on every exit; copy tests dst == src; '
+       'every exported operation that returns FALSE has left its result as the broken region (bottom-up summaries over rect_alloc, the sweep, validate, copy, union...); conversions copy each coordinate from the same-named one; the empty/broken sentinels are constant size-0 objects and every free of region data is guarded. '
+       'The rectangle arithmetic of the sweep and of the overlap callbacks is value-level and not decided.',
+  note='Trusted: clang-14 IR = built program.')
+PROPS['C06'] = dict(
+  technique='static analysis: field coverage of equal() (T-COV), emptiness-before-extents guard (T-GRD), must-pass-through of extents recomputation and coalescing (T-MPT), deviant-sibling normalisation rule (T-PAIR)',
+  text='Decides for both instantiations that equal() compares all four extents, the count and all four coordinates of each pair, and tests emptiness of both operands before touching extents; that every exported operation running the band sweep re-establishes the result\'s extents on all success paths; '
+       'that each band-producing step in the sweep is followed by the coalesce step and the three-way normalisation exists; that a function which can reduce numRects to 0 normalises the empty case wherever it normalises the singleton. Canonical form itself (banding, minimality) is value-level and not decided.',
+  note='Trusted: clang-14 IR = built program. F8 (translate left numRects==0 unnormalised) and F14 (equal() on empty regions with stale extents) were repaired in /repo.')
+PROPS['C07'] = dict(
+  technique='static analysis: width of arithmetic feeding overflow_int_t variables from debug types (T-WID), empty normalisation of translate (T-PAIR), return-value set and format guards',
+  text='Decides that every value assigned to a variable of the repository\'s overflow_int_t typedef is computed at that width (a narrower add hidden under the widening cast defeats the overflow detection of translate), that translate normalises an emptied region, that contains_rectangle returns only the three enumerators and that bitmap import reads only a1 BITS images. '
+       'Membership answers and the PART/IN/OUT sweep are value-level and not decided.',
+  note='Trusted: clang-14 IR and debug info. F9 (32-bit sums formed before widening) was repaired in /repo.')
